@@ -8,6 +8,7 @@ import (
 	"math/rand"
 	"os"
 	"path/filepath"
+	"regexp"
 	"runtime"
 	"sort"
 	"strings"
@@ -155,9 +156,7 @@ func (cx *CheckCtx) absorb(c *Chunk, jr *JudgeResult, name string) {
 	cx.Steps += jr.Steps
 	cx.Traces += len(c.Traces)
 	for k, v := range jr.Counts {
-		if strings.HasPrefix(k, cx.Prop+"_") || clauseProps[k][cx.Prop] {
-			cx.Counts[k] += v
-		}
+		cx.Counts[k] += v // with Want = {property} only clauses of this property are evaluated at all
 	}
 	for line, props := range jr.Hits {
 		hit := false
@@ -626,6 +625,18 @@ func (cx *CheckCtx) finish(level string, rule string, assumptions []string) int 
 		"known_findings_seen":           kseen,
 		"unreproduced":                  unrepro,
 	}
+	// anti-vacuity: clauses of this property (read from the specification text) whose antecedent never held in this run
+	if all := clausesOfProperty(cx.Prop); len(all) > 0 {
+		var never []string
+		for _, n := range all {
+			if cx.Counts[n] == 0 {
+				never = append(never, n)
+			}
+		}
+		sort.Strings(never)
+		cov["clauses_of_property"] = len(all)
+		cov["clauses_never_exercised"] = never
+	}
 	st, trn := 0, 0
 	var models []any
 	for _, m := range cx.Models {
@@ -655,6 +666,25 @@ func (cx *CheckCtx) finish(level string, rule string, assumptions []string) int 
 	fmt.Printf("%s %s: steps=%d evaluations=%d distinct=%d traces=%d violations=%d known=%d wall=%.1fs exit=%d\n",
 		cx.Prop, cx.Tier, cx.Steps, cx.Evals, len(cx.Distinct), cx.Traces, confirmed, len(kseen), time.Since(cx.T0).Seconds(), exit)
 	return exit
+}
+
+var clauseDeclRe = regexp.MustCompile(`Cl\("([A-Za-z0-9_]+)", \{([^}]*)\}`)
+
+// clausesOfProperty reads the clause declarations Cl("name", {props}, ...) from the specification.
+func clausesOfProperty(prop string) []string {
+	var out []string
+	for _, f := range []string{"GoitProps.tla", "GoitFSProps.tla"} {
+		b, err := os.ReadFile(filepath.Join(specDir(), f))
+		if err != nil {
+			continue
+		}
+		for _, m := range clauseDeclRe.FindAllStringSubmatch(string(b), -1) {
+			if strings.Contains(m[2], `"`+prop+`"`) {
+				out = append(out, m[1])
+			}
+		}
+	}
+	return out
 }
 
 func sanitize(s string) string {
